@@ -356,7 +356,10 @@ func init() {
 // dig interprets (a tag must not let an unexported field slip past the
 // "unexported fields not allowed" check).
 func hiddenField(arg int) reflect.StructField {
-	f := reflect.StructField{Name: "hidden", PkgPath: "digsim", Type: m1T}
+	f := reflect.StructField{Name: "hidden", PkgPath: "digsim", Type: m0T}
+	if arg%2 == 0 {
+		f.Type = m1T
+	}
 	switch arg % 6 {
 	case 1:
 		f.Type, f.Tag = reflect.SliceOf(m0T), `group:"mg"`
@@ -368,6 +371,12 @@ func hiddenField(arg int) reflect.StructField {
 		f.Tag = `name:"a"`
 	case 5:
 		f.Type, f.Tag = msT, `group:"mg"`
+	}
+	switch (arg / 6) % 4 {
+	case 1:
+		f.Name = "_" // blank and underscore names are unexported too
+	case 2:
+		f.Name = "_x"
 	}
 	return f
 }
